@@ -268,14 +268,14 @@ fn build(spec: &Spec) -> Internet {
         }
         Family::Deep { .. } => deep = Some(LT),
     }
-    Internet { zones, servers, chase_in_zone: spec.chase, deep_delegation: deep, hostile_zone: None, injection: Injection::default() }
+    Internet { zones, servers, chase_in_zone: spec.chase, deep_delegation: deep, hostile_zone: None, injection: Injection::default(), hostile_mode: 0, reown: None }
 }
 
 // ------------------------------------------------------------------------------------------
 // injections
 
 const SECTIONS: [&str; 3] = ["answer", "authority", "additional"];
-const KINDS: [&str; 10] = [
+const KINDS: [&str; 12] = [
     "victim-a",
     "victim-zone-ns+glue",
     "victim-parent-ns+glue",
@@ -286,7 +286,10 @@ const KINDS: [&str; 10] = [
     "sibling-a",
     "victim-zone-ns+victim-glue",
     "own-names-ns->victim-host+forged-glue",
+    "victim-cname",
+    "victim-zone-soa",
 ];
+const MODES: [&str; 5] = ["append", "replace-noerror", "replace-nxdomain", "append+aa-flipped", "reown-genuine-records-to-victim"];
 
 /// (victim zone, victim's parent zone, sibling name outside the hostile zone)
 fn victims(hz: usize) -> (usize, usize, &'static str) {
@@ -336,6 +339,12 @@ fn injection(hz: usize, kind: usize, section: usize) -> Injection {
             extra_additional.push(rec_a(&host, Ipv4Addr::new(6, 6, 7, 1)));
         }
         7 => main.push(rec_a(&n(sib), Ipv4Addr::new(6, 6, 6, 5))),
+        10 => main.push(rec_cname(&n(&format!("www.{}", ZONE_NAMES[vz])), &n(&format!("www.{hzn}")))),
+        11 => main.push(Record::from_rdata(
+            n(ZONE_NAMES[vz]),
+            60,
+            RData::SOA(hickory_proto::rr::rdata::SOA::new(n(&format!("evil.{hzn}")), n("h.invalid."), 9, 60, 60, 60, 60)),
+        )),
         9 => {
             // NS records for the hostile zone's OWN names (in bailiwick) that name a host of the
             // victim zone, with forged glue for that host (out of bailiwick)
@@ -754,6 +763,8 @@ struct CaseDesc {
     /// the first query is a warm-up (another name of the main query's zone): the main query
     /// then runs with the name-server cache already holding every ancestor's pool
     warm: bool,
+    /// how the hostile servers treat their genuine response (index into MODES)
+    mode: usize,
 }
 
 impl CaseDesc {
@@ -766,6 +777,8 @@ impl CaseDesc {
             "queries": self.queries.iter().map(|(a, b)| json!([a, b])).collect::<Vec<_>>(),
             "case_randomization": self.case_rand,
             "warm": self.warm,
+            "mode": self.mode,
+            "mode_name": MODES[self.mode],
         })
     }
     fn from_json(v: &Value) -> CaseDesc {
@@ -777,6 +790,7 @@ impl CaseDesc {
             queries: v["queries"].as_array().unwrap().iter().map(|q| (q[0].as_str().unwrap().to_string(), q[1].as_str().unwrap().to_string())).collect(),
             case_rand: v["case_randomization"].as_bool().unwrap_or(false),
             warm: v["warm"].as_bool().unwrap_or(false),
+            mode: v["mode"].as_u64().unwrap_or(0) as usize,
         }
     }
     fn internet(&self) -> Internet {
@@ -788,6 +802,9 @@ impl CaseDesc {
                 inj = merge(&inj, &injection(hz, *k, *s));
             }
             inet.injection = inj;
+            inet.hostile_mode = self.mode as u8;
+            let (vz, _, _) = victims(hz);
+            inet.reown = Some((n(&format!("www.{}", ZONE_NAMES[vz])), n(ZONE_NAMES[vz])));
         }
         inet
     }
@@ -797,7 +814,21 @@ impl CaseDesc {
 }
 
 fn main_queries() -> Vec<(&'static str, &'static str)> {
-    vec![("www.l.t.", "A"), ("www.v.o.", "A"), ("nx.l.t.", "A"), ("www.l.t.", "AAAA"), ("alias.l.t.", "A"), ("alias.v.o.", "A"), ("l.t.", "NS"), ("www.t.", "A")]
+    vec![
+        ("www.l.t.", "A"),
+        ("www.v.o.", "A"),
+        ("nx.l.t.", "A"),
+        ("www.l.t.", "AAAA"),
+        ("alias.l.t.", "A"),
+        ("alias.v.o.", "A"),
+        ("l.t.", "NS"),
+        ("www.t.", "A"),
+        // query types with paths of their own in the response classification / zone choice
+        ("l.t.", "SOA"),
+        ("www.l.t.", "ANY"),
+        ("alias.l.t.", "CNAME"),
+        ("l.t.", "DS"),
+    ]
 }
 
 /// Follow-up queries after the main one: names outside the hostile zone's subtree.
@@ -1104,9 +1135,9 @@ fn main() {
     ctx.set_rule(
         "(A) zone graphs root/t./o./l.t./v.o. with every combination of NS styles (t.: in-zone+glue, in-zone-no-glue, sibling-glueless, in-child+glue; o.: in-zone+glue, sibling-glueless; \
          l.t.: in-zone+glue, no-glue, sibling-tld, sibling-leaf, parent-zone; v.o.: in-zone+glue, sibling-tld, sibling-leaf; 120 graphs incl. all mutual glueless cycles) x 1 (quick) / 1-2 (thorough) servers per zone \
-         x 8 queries x limits {(4,4),(8,8),(24,24)}, honest; (B) every graph x hostile zone in {t., o., l.t., v.o.} (all its servers) x injection kind (10: victim A, victim-zone NS+glue, victim-parent NS+glue, root NS+glue, \
-         CNAME->victim + victim A, in-bailiwick A at a denied answer address, in-bailiwick NS + glue at a denied server address, sibling A, victim NS + victim glue, NS for the hostile zone's own names naming a victim-zone host + forged glue for it) x section {answer, authority, additional} added to EVERY response \
-         x main query (cold, and - when the hostile zone is the one holding the queried name - also after a warm-up query for another name of that zone, i.e. with every ancestor's pool already in the name-server cache), followed on the same recursor by 3-4 follow-up queries for names outside the hostile subtree; thorough adds all unordered pairs of injections on the plain graph and on every graph that differs from it in at most two zones' NS styles; \
+         x 12 queries (A, AAAA, NS, SOA, ANY, CNAME, DS; existing, missing, alias names) x limits {(4,4),(8,8),(24,24)}, honest; (B) every graph x hostile zone in {t., o., l.t., v.o.} (all its servers) x injection kind (12: victim A, victim-zone NS+glue, victim-parent NS+glue, root NS+glue, \
+         CNAME->victim + victim A, in-bailiwick A at a denied answer address, in-bailiwick NS + glue at a denied server address, sibling A, victim NS + victim glue, NS for the hostile zone's own names naming a victim-zone host + forged glue for it, victim CNAME, victim-zone SOA) x response mode {append; on graphs near the plain one (thorough: all single-server graphs) also: genuine records dropped with NOERROR / with NXDOMAIN, AA bit flipped, genuine records re-owned to the victim} x section {answer, authority, additional} added to EVERY response \
+         x main query (cold, and - when the hostile zone is the one holding the queried name - also after a warm-up query for another name of that zone, i.e. with every ancestor's pool already in the name-server cache), followed on the same recursor by 3-4 follow-up queries for names outside the hostile subtree; thorough adds all unordered pairs of injections on the plain graph and on every graph that differs from it in at most one zone's NS style; \
          (C) lame kinds {REFUSED, upward referral, self referral, empty NOERROR, timeout} x zone x {1 server, 2 servers both lame, 2 servers first lame}; \
          (D) CNAME chains 1..70 (in-zone / cross-zone, server chases in-zone or not), CNAME loops 1..3, NS-for-NS chains 1..30, glueless cycles 1..8 (1 NS name) / 1..6 (2 NS names), delegation depth 1..40, each x limits; \
          (E) stub CachingClient: CNAME chains 1..20, loops 1..3, 1-2 CNAMEs per response, preserve_intermediates on/off. \
@@ -1126,13 +1157,13 @@ fn main() {
     for s in &specs {
         for lim in limits_all {
             for q in &queries {
-                honest_descs.push(CaseDesc { spec: s.clone(), limits: lim, hostile: None, inj: vec![], queries: vec![(q.0.to_string(), q.1.to_string())], case_rand: false, warm: false });
+                honest_descs.push(CaseDesc { spec: s.clone(), limits: lim, hostile: None, inj: vec![], queries: vec![(q.0.to_string(), q.1.to_string())], case_rand: false, warm: false, mode: 0 });
             }
         }
     }
     for s in lame_specs() {
         for q in &queries {
-            honest_descs.push(CaseDesc { spec: s.clone(), limits: (8, 8), hostile: None, inj: vec![], queries: vec![(q.0.to_string(), q.1.to_string())], case_rand: false, warm: false });
+            honest_descs.push(CaseDesc { spec: s.clone(), limits: (8, 8), hostile: None, inj: vec![], queries: vec![(q.0.to_string(), q.1.to_string())], case_rand: false, warm: false, mode: 0 });
         }
     }
     ctx.set("graphs", json!(specs.len()));
@@ -1159,7 +1190,7 @@ fn main() {
 
     // the plain graph must resolve: otherwise everything below is vacuous
     {
-        let d = CaseDesc { spec: Spec::base(), limits: (8, 8), hostile: None, inj: vec![], queries: vec![("www.l.t.".into(), "A".into()), ("alias.l.t.".into(), "A".into())], case_rand: false, warm: false };
+        let d = CaseDesc { spec: Spec::base(), limits: (8, 8), hostile: None, inj: vec![], queries: vec![("www.l.t.".into(), "A".into()), ("alias.l.t.".into(), "A".into())], case_rand: false, warm: false, mode: 0 };
         let run = execute_caught(Arc::new(d.internet()), d.limits, d.case_rand, &d.parsed_queries());
         let ok = run.steps.iter().all(|s| matches!(&s.outcome, Outcome::Ok { answers, .. } if answers.iter().any(|r| r.record_type() == RecordType::A)));
         if !ok {
@@ -1173,7 +1204,7 @@ fn main() {
         let mut cases = vec![];
         for s in specs.iter().filter(|s| s.style.iter().sum::<usize>() <= 1) {
             for q in &queries {
-                cases.push(CaseDesc { spec: s.clone(), limits: (8, 8), hostile: None, inj: vec![], queries: vec![(q.0.to_string(), q.1.to_string())], case_rand: true, warm: false });
+                cases.push(CaseDesc { spec: s.clone(), limits: (8, 8), hostile: None, inj: vec![], queries: vec![(q.0.to_string(), q.1.to_string())], case_rand: true, warm: false, mode: 0 });
             }
         }
         ctx.set("case_randomization_cases", json!(cases.len()));
@@ -1215,7 +1246,7 @@ fn main() {
                     qs.extend(followups(hz));
                     // and the main query once more: what the first resolution left in the caches
                     qs.push((q.0.to_string(), q.1.to_string()));
-                    refs.push((CaseDesc { spec: s.clone(), limits: inj_limits, hostile: None, inj: vec![], queries: qs, case_rand: false, warm }, hz));
+                    refs.push((CaseDesc { spec: s.clone(), limits: inj_limits, hostile: None, inj: vec![], queries: qs, case_rand: false, warm, mode: 0 }, hz));
                 }
             }
         }
@@ -1229,7 +1260,7 @@ fn main() {
     });
     let ref_runs: Vec<Run> = ref_runs.into_iter().map(|m| m.into_inner().unwrap().unwrap()).collect();
 
-    let mut jobs: Vec<(usize, Vec<(usize, usize)>)> = vec![];
+    let mut jobs: Vec<(usize, Vec<(usize, usize)>, usize)> = vec![];
     for (ri, (d, hz)) in refs.iter().enumerate() {
         // skip references in which the would-be hostile zone is never contacted (the injection
         // could not be seen): counted as trivial
@@ -1238,16 +1269,27 @@ fn main() {
         if !ref_runs[ri].steps.iter().any(|s| s.log.iter().any(|e| ips.contains(&e.ip))) {
             continue;
         }
+        let near_plain = d.spec.nserv == 1 && d.spec.style.iter().filter(|x| **x != 0).count() <= 1;
         for k in 0..KINDS.len() {
             for s in 0..SECTIONS.len() {
-                jobs.push((ri, vec![(k, s)]));
+                jobs.push((ri, vec![(k, s)], 0));
+                // the hostile servers ALTER their genuine response instead of only adding to it
+                if d.spec.nserv == 1 && (thorough || near_plain) {
+                    for mode in 1..=3 {
+                        jobs.push((ri, vec![(k, s)], mode));
+                    }
+                }
             }
         }
-        if thorough && d.spec.nserv == 1 && d.spec.style.iter().filter(|x| **x != 0).count() <= 2 {
+        if d.spec.nserv == 1 && (thorough || near_plain) {
+            // genuine records re-owned to the victim, nothing added
+            jobs.push((ri, vec![], 4));
+        }
+        if thorough && near_plain {
             let all: Vec<(usize, usize)> = (0..KINDS.len()).flat_map(|k| (0..SECTIONS.len()).map(move |s| (k, s))).collect();
             for a in 0..all.len() {
                 for b in a + 1..all.len() {
-                    jobs.push((ri, vec![all[a], all[b]]));
+                    jobs.push((ri, vec![all[a], all[b]], 0));
                 }
             }
         }
@@ -1255,11 +1297,15 @@ fn main() {
     ctx.set("hostile_reference_runs", json!(refs.len()));
     ctx.set("hostile_cases", json!(jobs.len()));
     ctx.par_run(jobs.len() as u64, 8, |i, l| {
-        let (ri, inj) = &jobs[i as usize];
+        let (ri, inj, mode) = &jobs[i as usize];
         let (rd, hz) = &refs[*ri];
         let mut d = rd.clone();
         d.hostile = Some(*hz);
         d.inj = inj.clone();
+        d.mode = *mode;
+        if *mode != 0 {
+            l.outcome(&format!("mode:{}", MODES[*mode]));
+        }
         let run = run_and_judge(&d, Some(&ref_runs[*ri]), l);
         if i % 64 == 0 {
             let again = execute_caught(Arc::new(d.internet()), d.limits, d.case_rand, &d.parsed_queries());
@@ -1292,7 +1338,7 @@ fn main() {
     ctx.par_run(tjobs.len() as u64, 2, |i, l| {
         let (fi, vi, lim) = tjobs[i as usize];
         let (nn, spec, q) = &fams[fi].1[vi];
-        let d = CaseDesc { spec: spec.clone(), limits: lim, hostile: None, inj: vec![], queries: vec![q.clone()], case_rand: false, warm: false };
+        let d = CaseDesc { spec: spec.clone(), limits: lim, hostile: None, inj: vec![], queries: vec![q.clone()], case_rand: false, warm: false, mode: 0 };
         let run = run_and_judge(&d, None, l);
         l.outcome(&format!("termination:{}:{}", fams[fi].0.split(':').next().unwrap(), run.steps[0].outcome.class()));
         counts.lock().unwrap().entry((fi, lim)).or_default().insert(*nn, (run.steps[0].log.len(), run.steps[0].outcome.class()));
